@@ -5,7 +5,7 @@ from dataclasses import dataclass, field
 import matplotlib.pyplot as plt
 import matplotlib.patches as patches
 from typing import List, Optional, TypeVar, Dict, Any, Tuple
-from qce_circuit.structure.intrf_circuit_operation import RelationLink
+from qce_circuit.structure.intrf_circuit_operation import RelationLink, MultiRelationLink
 from qce_circuit.structure.circuit_operations import (
     Reset,
     Wait,
@@ -539,7 +539,7 @@ def plot_debug_schedule(**kwargs) -> IFigureAxesPair:
 def plot_circuit(circuit: IDeclarativeCircuit, channel_order: List[int] = None, channel_map: Optional[Dict[int, str]] = None, compact_visualization: bool = True, **kwargs) -> IFigureAxesPair:
     if compact_visualization:
         with temporary_override_get_registry_at(VISUALIZATION_DURATION_REGISTRY):
-            with clear_lru_cache(RelationLink.get_start_time):
+            with clear_lru_cache(RelationLink.get_start_time), clear_lru_cache(MultiRelationLink.get_start_time):
                 fig, ax = plot_circuit_description(
                     description=construct_visual_description(
                         circuit=circuit,
